@@ -1,4 +1,2 @@
-From Coq Require Import ZArith QArith List Bool Arith Lia.
-From QE Require Import Base.Num Base.Cases C09.Solve C09.Model C01.Model.
-Import ListNotations.
-Lemma placeholder : True. Proof. exact I. Qed.
+(* C01 lemmas: re-export of Proofs1..4 *)
+From QE Require Export C01.Proofs1 C01.Proofs2 C01.Proofs3 C01.Proofs4.
